@@ -115,7 +115,8 @@ Fixpoint hist_valid (s : schema) (h : list applied) : bool :=
 
 Definition holds_C01 (c : case) : bool :=
   match c with
-  | CApply s doc a pv => if pv then result_valid s (ap_result a) else true
+  (* the schema fact C01_node_step_valid assumes: ContentMatch.empty is a valid end *)
+  | CApply s doc a pv => valid_end s 0 && (if pv then result_valid s (ap_result a) else true)
   | CHistory s doc h _ | CMarkOp s doc _ _ _ _ _ h _ => hist_valid s h
   | CMerge s doc a b _ mres =>
     result_valid s (ap_result a) && result_valid s (ap_result b) &&
